@@ -111,8 +111,8 @@ def check_interp1(ev, acc):
             for k, qq in enumerate(q):
                 r = res[k * lanes + l]
                 acc.values += 1
-                exact, Y, t = X.line_exact(x, y, qq)
-                tol = X.line_tol(ty, Y, t)
+                exact, Y, t, dq = X.line_exact(x, y, qq)
+                tol = X.line_tol(ty, Y, t, dq)
                 if not X.is_finite(r):
                     if overflowish(exact, tol, ty):
                         acc.count("overflow-skipped")
@@ -167,8 +167,8 @@ def check_interp1(ev, acc):
                 r = res[k * lanes + l]
                 acc.values += 1
                 exact = sum(c * F(qq) ** p for p, c in enumerate(coef))
-                _, Y, t = X.line_exact(x, ycols[l], qq)
-                tol = X.line_tol(ty, Y, t)
+                _, Y, t, dq = X.line_exact(x, ycols[l], qq)
+                tol = X.line_tol(ty, Y, t, dq)
                 if not X.is_finite(r):
                     viol(acc, ev, f"{prop}:poly", f"non-finite result for q={qq!r}")
                     continue
@@ -521,8 +521,8 @@ def check_interp2(ev, acc):
         for k in range(len(qx)):
             r = res[k * lanes + l]
             acc.values += 1
-            exact, Z, tx, ty_ = X.bilinear_exact(x, y, z, qx[k], qy[k])
-            tol = X.bilinear_tol(ty, Z, tx, ty_)
+            exact, Z, tx, ty_, dqx, dqy = X.bilinear_exact(x, y, z, qx[k], qy[k])
+            tol = X.bilinear_tol(ty, Z, tx, ty_, dqx, dqy)
             if not X.is_finite(r):
                 if overflowish(exact, tol / X.U[ty], ty):
                     acc.count("overflow-skipped")
